@@ -209,6 +209,9 @@ func (r *runner) do(step string, f func()) (ok bool) {
 
 var sink int
 
+// runes at the ends of the code spaces of the cmap formats
+var edgeRunes = []rune{0xFFEF, 0xFFF0, 0xFFFE, 0x10FFF0, 0x10FFFE, 0x7FFFFFFF, -0x80000000}
+
 var probeRunes = []rune{0, 0x20, 'A', 'a', 0xE9, 0x3A9, 0x627, 0x915, 0x4E00, 0xFFFF, 0x10000, 0x1F600, 0x10FFFF, -1, 0x110000}
 
 // outcome of one case
@@ -304,6 +307,16 @@ func queryFace(face *font.Face, ld *ot.Loader, r *runner) {
 				sink += int(g)
 			}
 		}
+		for _, ch := range edgeRunes {
+			g, _ := ft.Cmap.Lookup(ch)
+			g2, _ := ft.VariationGlyph(ch, 0xE01EF)
+			sink += int(g + g2)
+		}
+		// the range view of the cmap (used by font scanning to build the rune coverage)
+		if rr, ok := ft.Cmap.(font.CmapRuneRanger); ok {
+			ranges := rr.RuneRanges(nil)
+			sink += len(rr.RuneRanges(ranges[:0])) // with a reused buffer
+		}
 		it := ft.Cmap.Iter()
 		var seen []rune
 		for k := 0; k < maxCmapIter && it.Next(); k++ {
@@ -374,15 +387,89 @@ func queryFace(face *font.Face, ld *ot.Loader, r *runner) {
 	}
 	metricsSteps("")
 	r.do("GlyphData@ppem", func() {
-		face.SetPpem(24, 24)
-		for _, g := range glyphs {
-			if gd := face.GlyphData(g); gd != nil {
-				sink++
+		for _, pp := range [][2]uint16{{24, 24}, {1, 1}, {24, 0}, {65535, 65535}} {
+			face.SetPpem(pp[0], pp[1])
+			x, y := face.Ppem()
+			sink += int(x + y)
+			for _, g := range glyphs {
+				if gd := face.GlyphData(g); gd != nil {
+					sink++
+				}
+				e, _ := face.GlyphExtents(g)
+				sink += int(e.Height)
+				x, y, _ := face.GlyphVOrigin(g)
+				sink += int(x+y) + int(face.HorizontalAdvance(g))
 			}
-			e, _ := face.GlyphExtents(g)
-			sink += int(e.Height)
 		}
 		face.SetPpem(0, 0)
+	})
+	// every glyph of a small font, not a sample: the per-glyph data (outline, composite, bitmap
+	// strike entry, sbix graphic type, SVG document) differs from glyph to glyph; fonts with
+	// bitmap strikes are also asked at a pixel size
+	// (outline-only fonts: every glyph up to 48 glyphs, else a stride of 24 glyphs, because the
+	// charstring / glyf decoding of every glyph of every mutant would dominate the budget)
+	if n <= 300 {
+		r.do("allglyphs", func() {
+			sizes := [][2]uint16{{0, 0}}
+			perGlyphTables := len(ft.BitmapSizes()) != 0 || ld != nil && ld.HasTable(ot.MustNewTag("SVG "))
+			if len(ft.BitmapSizes()) != 0 {
+				sizes = append(sizes, [2]uint16{24, 24})
+			}
+			step := 1
+			if !perGlyphTables && n > 48 {
+				step = (n + 23) / 24
+			}
+			for _, pp := range sizes {
+				face.SetPpem(pp[0], pp[1])
+				for g := 0; g < n; g += step {
+					if gd := face.GlyphData(font.GID(g)); gd != nil {
+						sink++
+					}
+					e, _ := face.GlyphExtents(font.GID(g))
+					sink += int(e.Width)
+				}
+			}
+			face.SetPpem(0, 0)
+			for g := 0; g < n; g++ {
+				sink += int(face.HorizontalAdvance(font.GID(g)) + face.VerticalAdvance(font.GID(g)))
+			}
+		})
+	}
+	r.do("misc", func() {
+		for _, g := range glyphs {
+			x, y, _ := ft.GetGlyphContourPoint(g, 0)
+			sink += int(x + y)
+		}
+		// the kerning tables are exported: pair lookups of the simple formats
+		for _, kt := range []font.Kernx{ft.Kern, ft.Kerx} {
+			for _, st := range kt {
+				if sk, ok := st.Data.(font.SimpleKerns); ok {
+					for _, a := range glyphs {
+						for _, b := range glyphs[:3] {
+							sink += int(sk.KernPair(a, b))
+						}
+					}
+				}
+			}
+		}
+		// coordinates of the font's own axis count, directly
+		if len(axes) > 0 {
+			design := make([]float32, len(axes))
+			for i := range design {
+				design[i] = float32(1e9) * float32(1-2*(i%2))
+			}
+			nc := ft.NormalizeVariations(design)
+			for i := range nc {
+				nc[i] = font.VarCoord(16384 * (1 - 2*(i%2))) // +-1.0 in 2.14: the ends of the documented range
+			}
+			face.SetCoords(nc)
+			for _, g := range glyphs[:4] {
+				e, _ := face.GlyphExtents(g)
+				sink += int(e.Width) + int(face.HorizontalAdvance(g))
+			}
+			sink += len(face.Coords())
+			face.SetCoords(nil)
+		}
 	})
 	r.do("GlyphName", func() {
 		for _, g := range glyphs {
